@@ -34,6 +34,9 @@ pub enum Head {
     IfOdd(i64),
     /// `\ifcase n` followed by `ors` `\or`s
     IfCase(i64),
+    /// `\ifodd <text>` / `\ifcase <text>` where the operand is written with a sign string (`--3`, `+-3`, `- 3`)
+    IfOddText(&'static str),
+    IfCaseText(&'static str),
     /// `~ .. \else .. \fi` where `\let~=\iftrue` (the active character `~` is the conditional)
     ActiveTrue,
     /// `\iftrue .. \else .. ~` / `\iffalse .. \else .. ~` where `\let~=\fi`
@@ -53,7 +56,7 @@ pub struct Variant {
 
 impl Variant {
     pub fn new(head: Head, ors: usize, has_else: bool) -> Variant {
-        let ors = if matches!(head, Head::IfCase(_)) { ors } else { 0 };
+        let ors = if matches!(head, Head::IfCase(_) | Head::IfCaseText(_)) { ors } else { 0 };
         Variant { head, ors, has_else }
     }
     /// number of branch bodies
@@ -71,13 +74,14 @@ impl Variant {
                 _ => a == b,
             },
             Head::IfOdd(n) => n.rem_euclid(2) == 1, // §504 odd(cur_val): true for negative odd numbers
-            Head::IfCase(_) => return None,
+            Head::IfOddText(t) => signed_value(t).rem_euclid(2) == 1,
+            Head::IfCase(_) | Head::IfCaseText(_) => return None,
         })
     }
     /// index of the branch whose tokens are delivered, if any
     pub fn selected(&self) -> Option<usize> {
-        match self.head {
-            Head::IfCase(n) => {
+        match self.case_value() {
+            Some(n) => {
                 if n >= 0 && (n as usize) <= self.ors {
                     Some(n as usize)
                 } else if self.has_else {
@@ -97,6 +101,14 @@ impl Variant {
             }
         }
     }
+    /// value of the `\ifcase` operand, None for the other kinds
+    pub fn case_value(&self) -> Option<i64> {
+        match self.head {
+            Head::IfCase(n) => Some(n),
+            Head::IfCaseText(t) => Some(signed_value(t)),
+            _ => None,
+        }
+    }
     pub fn uses_active_if(&self) -> bool {
         self.head == Head::ActiveTrue
     }
@@ -111,6 +123,12 @@ impl Variant {
             out.push(Tok::Ch(c, 12));
         }
         out.push(SPACE); // operands are always terminated by a space
+    }
+    fn number_text(t: &str, out: &mut Vec<Tok>) {
+        for c in t.chars() {
+            out.push(if c == ' ' { SPACE } else { Tok::Ch(c, 12) });
+        }
+        out.push(SPACE);
     }
     pub fn head_tokens(&self, out: &mut Vec<Tok>) {
         match self.head {
@@ -132,7 +150,26 @@ impl Variant {
                 out.push(Tok::Cs("ifcase"));
                 Self::number(n, out);
             }
+            Head::IfOddText(t) => {
+                out.push(Tok::Cs("ifodd"));
+                Self::number_text(t, out);
+            }
+            Head::IfCaseText(t) => {
+                out.push(Tok::Cs("ifcase"));
+                Self::number_text(t, out);
+            }
         }
+    }
+}
+
+/// §440-441: value of `<signs and blanks><decimal digits>`: every `-` flips the sign, `+` and blanks are skipped.
+pub fn signed_value(t: &str) -> i64 {
+    let neg = t.chars().filter(|c| *c == '-').count() % 2 == 1;
+    let v: i64 = t.chars().filter(|c| c.is_ascii_digit()).collect::<String>().parse().expect("digits");
+    if neg {
+        -v
+    } else {
+        v
     }
 }
 
@@ -143,6 +180,8 @@ pub enum Item {
     Cond(Cond),
     /// a token that may only stand in skipped text
     Junk(Tok),
+    /// a given unexpandable character token (delivered when the body is live)
+    Lit(Tok),
 }
 
 #[derive(Clone, Debug, PartialEq, Eq)]
@@ -224,14 +263,19 @@ impl Cond {
             r.facts.else_at_depth_gt0_in_skipped_text = true;
         }
         if live {
-            if let Head::IfCase(n) = self.v.head {
+            if let Some(n) = self.v.case_value() {
                 if n < 0 {
                     r.facts.ifcase_negative = true;
                 } else if n as usize > self.v.ors {
                     r.facts.ifcase_out_of_range = true;
                 }
             }
-            if let Head::IfOdd(n) = self.v.head {
+            let odd_operand = match self.v.head {
+                Head::IfOdd(n) => Some(n),
+                Head::IfOddText(t) => Some(signed_value(t)),
+                _ => None,
+            };
+            if let Some(n) = odd_operand {
                 if n < 0 && n % 2 != 0 {
                     r.facts.negative_odd_live = true;
                 }
@@ -255,7 +299,7 @@ impl Cond {
             if live {
                 if bctx == Ctx::Live {
                     r.facts.some_branch_delivered = true;
-                    if matches!(self.v.head, Head::IfCase(_)) && i < self.v.ors {
+                    if self.v.case_value().is_some() && i < self.v.ors {
                         r.facts.live_branch_ended_by_or = true;
                     }
                 } else {
@@ -270,6 +314,12 @@ impl Cond {
                         r.tokens.push(t);
                         if bctx == Ctx::Live {
                             r.expected.push(t);
+                        }
+                    }
+                    Item::Lit(t) => {
+                        r.tokens.push(*t);
+                        if bctx == Ctx::Live {
+                            r.expected.push(*t);
                         }
                     }
                     Item::Junk(t) => {
